@@ -16,7 +16,7 @@ variable {σ π : Type} [PsInv σ]
 theorem aspiration_final2 (c : Comp σ π) (L : Limits) {Good : Board → Prop} {TTok : σ → Prop} {μ : Board → Nat}
     (hl : Laws c Good) (sl : ScoreLaws c Good TTok μ) (al : AspLaws c) (fuel : Nat) (idD : Int) (hd : 1 ≤ idD) :
     ∀ (n : Nat) (alpha beta factor : Score) (s : St σ), Good s.board → TTA2 TTok s → Final c.keys s.board →
-      (s.ttOut = false → FinAsp (fsOf s.board) alpha beta factor) →
+      (s.ttOut = false → FinAsp c.windowSize (fsOf s.board) alpha beta factor) →
       TTA2 TTok (aspiration c L fuel idD n alpha beta factor s).st ∧
       (∀ al be sa s', aspiration c L fuel idD n alpha beta factor s = .ok al be sa s' → s'.ttOut = false →
         sa = fsOf s.board ∧ s'.pv.row 0 = []) := by
@@ -29,10 +29,10 @@ theorem aspiration_final2 (c : Comp σ π) (L : Limits) {Good : Board → Prop} 
     intro alpha beta factor s hg htt hfin hinv
     have hab := alphaBeta_spec c L hl fuel alpha beta idD 0 .pv s hg htt.1 (Int.le_refl 0)
     have hrg := alphaBeta_range2 c L hl sl fuel alpha beta idD 0 .pv s hg (Int.le_refl 0) (by decide)
-      (fun hA => (finAsp_rootWin (hinv hA)).1) htt
+      (fun hA => (finAsp_rootWin al.windowSafe (hinv hA)).1) htt
     have hany := fun (hw : RootWin alpha beta) => alphaBeta_final_any c L hl fuel alpha beta idD hd
       (fun se h => sl.rfp_sound idD se beta (by omega) hw.2 h) s hg htt.1 hfin
-    simp only [aspiration, al.window44]
+    simp only [aspiration]
     simp only at hany
     generalize alphaBeta c L fuel alpha beta idD 0 .pv s = r at hab hrg hany ⊢
     have haf := abort_frame L r.2
@@ -56,21 +56,21 @@ theorem aspiration_final2 (c : Comp σ π) (L : Limits) {Good : Board → Prop} 
         cases h
         simp only [Bool.and_eq_true, Bool.not_eq_true', decide_eq_false_iff_not] at hin
         have hlt : r.1 < beta := Int.not_le.1 hin.2
-        rcases hany (finAsp_rootWin (hinv (hback hA))) hrab with h | h
+        rcases hany (finAsp_rootWin al.windowSafe (hinv (hback hA))) hrab with h | h
         · exact ⟨h.1, by rw [hap]; exact h.2⟩
         · exact absurd hlt (Int.not_lt.2 h)
       · next hnin =>
         -- not in the window: the result is not the final value, so it is a fail-high
         have hhigh : as.2.ttOut = false → beta ≤ r.1 := fun hA => by
-          have hins := finAsp_inside (hinv (hback hA))
-          rcases hany (finAsp_rootWin (hinv (hback hA))) hrab with h | h
+          have hins := finAsp_inside al.windowSafe (hinv (hback hA))
+          rcases hany (finAsp_rootWin al.windowSafe (hinv (hback hA))) hrab with h | h
           · exfalso; apply hnin
             have h1 : ¬ r.1 ≤ alpha := by rw [h.1]; exact Int.not_le.2 hins.1
             have h2 : ¬ r.1 ≥ beta := by rw [h.1]; exact Int.not_le.2 hins.2
             simp [h1, h2]
           · exact h
         have hb2 : as.2.board = s.board := by rw [haf.board, hab.1.board]
-        have hstep := fun (hA : as.2.ttOut = false) => finAsp_step (hinv (hback hA)) (hsr hA) (hhigh hA)
+        have hstep := fun (hA : as.2.ttOut = false) => finAsp_step al.windowSafe (hinv (hback hA)) (hsr hA) (hhigh hA)
         have := ih _ _ _ as.2 (by rw [hb2]; exact hg) htt2 (by rw [hb2]; exact hfin) (by rw [hb2]; exact hstep)
         rw [hb2] at this
         exact this
@@ -79,7 +79,7 @@ theorem aspiration_final2 (c : Comp σ π) (L : Limits) {Good : Board → Prop} 
 theorem aspiration_final01_2 (c : Comp σ π) (L : Limits) {Good : Board → Prop} {TTok : σ → Prop} {μ : Board → Nat}
     (hl : Laws c Good) (sl : ScoreLaws c Good TTok μ) (al : AspLaws c) (fuel : Nat) (idD : Int) (h01 : idD = 0 ∨ idD = 1) :
     ∀ (n : Nat) (alpha beta factor : Score) (s : St σ), Good s.board → TTA2 TTok s → Final c.keys s.board →
-      (s.ttOut = false → AspInv alpha beta factor) →
+      (s.ttOut = false → AspInv c.windowSize alpha beta factor) →
       (∀ al be sa s', aspiration c L fuel idD n alpha beta factor s = .ok al be sa s' → s'.ttOut = false →
         s'.pv.row 0 = [] ∧ (idD = 1 → sa = fsOf s.board)) := by
   intro n
@@ -89,12 +89,12 @@ theorem aspiration_final01_2 (c : Comp σ π) (L : Limits) {Good : Board → Pro
     intro alpha beta factor s hg htt hfin hinv
     have hab := alphaBeta_spec c L hl fuel alpha beta idD 0 .pv s hg htt.1 (Int.le_refl 0)
     have hrg := alphaBeta_range2 c L hl sl fuel alpha beta idD 0 .pv s hg (Int.le_refl 0) (by decide)
-      (fun hA => (aspInv_win (hinv hA)).1) htt
+      (fun hA => (aspInv_win al.windowSafe (hinv hA)).1) htt
     have hany := fun (hb32 : beta ≤ 32528) (h1 : idD = 1) => alphaBeta_final_any c L hl fuel alpha beta idD (by omega)
       (fun se h => al.rfp_shallow idD se beta (by omega) (by omega) hb32 h) s hg htt.1 hfin
     have hrow : idD = 0 → (alphaBeta c L fuel alpha beta idD 0 .pv s).2.pv.row 0 = [] := by
       intro h; rw [h]; exact alphaBeta_depth0_row c L hl fuel alpha beta s hg htt.1
-    simp only [aspiration, al.window44]
+    simp only [aspiration]
     simp only at hany
     generalize alphaBeta c L fuel alpha beta idD 0 .pv s = r at hab hrg hany hrow ⊢
     have haf := abort_frame L r.2
@@ -120,7 +120,7 @@ theorem aspiration_final01_2 (c : Comp σ π) (L : Limits) {Good : Board → Pro
         have hlt : r.1 < beta := Int.not_le.1 hin.2
         rcases h01 with h0 | h1
         · exact ⟨by rw [hap]; exact hrow h0, fun h => by omega⟩
-        · rcases hany (aspInv_win (hinv (hback hA))).2 h1 hrab with h | h
+        · rcases hany (aspInv_win al.windowSafe (hinv (hback hA))).2 h1 hrab with h | h
           · exact ⟨by rw [hap]; exact h.2, fun _ => h.1⟩
           · exact absurd hlt (Int.not_lt.2 h)
       · next hnin =>
@@ -130,7 +130,7 @@ theorem aspiration_final01_2 (c : Comp σ π) (L : Limits) {Good : Board → Pro
           · by_cases h2 : beta ≤ r.1
             · exact Or.inr h2
             · exfalso; apply hnin; simp [h1, h2]
-        have hstep := fun (hA : as.2.ttOut = false) => aspInv_step (hinv (hback hA)) (hsr hA) hout
+        have hstep := fun (hA : as.2.ttOut = false) => aspInv_step al.windowSafe (hinv (hback hA)) (hsr hA) hout
         have hb2 : as.2.board = s.board := by rw [haf.board, hab.1.board]
         have := ih _ _ _ as.2 (by rw [hb2]; exact hg) htt2 (by rw [hb2]; exact hfin) hstep
         rw [hb2] at this
@@ -142,8 +142,8 @@ theorem idLoop_final2 (c : Comp σ π) (L : Limits) (clock : Clock) {Good : Boar
     (hl : Laws c Good) (sl : ScoreLaws c Good TTok μ) (al : AspLaws c) (fuel : Nat) (b : Board) (hg : Good b)
     (hfin : Final c.keys b) (hd : 1 ≤ L.depth) :
     ∀ (n : Nat) (idD : Int) (v : IDVars) (s : St σ), s.board = b → 0 ≤ idD → (n : Int) + idD = 64 →
-      TTA2 TTok s → (s.ttOut = false → idD ≤ 1 → AspInv v.alpha v.beta 1) →
-      (s.ttOut = false → 2 ≤ idD → FinAsp (fsOf b) v.alpha v.beta 1 ∧ v.score = fsOf b) →
+      TTA2 TTok s → (s.ttOut = false → idD ≤ 1 → AspInv c.windowSize v.alpha v.beta 1) →
+      (s.ttOut = false → 2 ≤ idD → FinAsp c.windowSize (fsOf b) v.alpha v.beta 1 ∧ v.score = fsOf b) →
       (s.ttOut = false → v.move = 0) →
       (idLoop c L clock fuel n idD v s).st.ttOut = false →
       (idLoop c L clock fuel n idD v s).st.aborted = false →
@@ -237,14 +237,14 @@ theorem idLoop_final2 (c : Comp σ π) (L : Limits) (clock : Clock) {Good : Boar
           · push_cast at hn ⊢; omega
           · exact htt'.congr rfl rfl
           · intro hA _
-            show AspInv (wrapS16 (sample - c.windowSize)) (wrapS16 (sample + c.windowSize)) 1
-            rw [al.window44]; exact aspInv_first (hokc' hA).1
+            show AspInv c.windowSize (wrapS16 (sample - c.windowSize)) (wrapS16 (sample + c.windowSize)) 1
+            exact aspInv_first al.windowSafe (hokc' hA).1
           · intro hA h2
             have hv : sample = fsOf b := (hokc' hA).2.2 (by omega)
             refine ⟨?_, hv⟩
-            show FinAsp (fsOf b) (wrapS16 (sample - c.windowSize)) (wrapS16 (sample + c.windowSize)) 1
-            rw [al.window44, hv]
-            refine finAsp_first ?_
+            show FinAsp c.windowSize (fsOf b) (wrapS16 (sample - c.windowSize)) (wrapS16 (sample + c.windowSize)) 1
+            rw [hv]
+            refine finAsp_first al.windowSafe ?_
             rcases fsOf_cases b with e | e
             · exact Or.inl e
             · exact Or.inr e
